@@ -127,12 +127,12 @@ type termInfo struct {
 }
 
 type boundsAnalysis struct {
-	c     *Ctx
-	p     *core.Prog
+	c *Ctx
+	p *core.Prog
 	// substExpr: while a helper's guard is read in place, its parameters stand for
 	// the operands of the call
 	substExpr map[types.Object]ast.Expr
-	terms map[string]termInfo
+	terms     map[string]termInfo
 	// errFacts: pending contracts keyed by the error variable's canonical name
 	funcs   map[*core.Func]bool
 	pre     map[*core.Func][]precond // inferred preconditions on parameters
@@ -792,6 +792,7 @@ func (b *boundsAnalysis) analyseFunc(fn *core.Func, body *ast.BlockStmt, inScope
 		}
 		return facts, errFacts, cond
 	}
+	visits := map[*cfg.Block]int{}
 	iter := 0
 	for len(work) > 0 && iter < 4000 {
 		iter++
@@ -811,11 +812,28 @@ func (b *boundsAnalysis) analyseFunc(fn *core.Func, body *ast.BlockStmt, inScope
 				continue
 			}
 			joined := b.join(in[s], out)
-			if len(joined) != len(in[s]) {
+			visits[s]++
+			if visits[s] > 6 {
+				// widening: a fact that keeps changing (a constant creeping along a loop) is
+				// dropped - from now on only facts already recorded at s that the new
+				// predecessor state still implies survive, so the set at s can only shrink and
+				// the iteration terminates
+				w := factSet{}
+				for k, f := range in[s] {
+					if _, ok := out[k]; ok || b.prove(f, out) {
+						w[k] = f
+					}
+				}
+				joined = w
+			}
+			if !sameFactKeys(joined, in[s]) {
 				in[s] = joined
 				work = append(work, s)
 			}
 		}
+	}
+	if len(work) > 0 {
+		fail("bounds dataflow of %s did not converge within %d steps", fn.Name, iter)
 	}
 	for _, blk := range g.Blocks {
 		if seen[blk] && blk.Live {
@@ -1731,4 +1749,17 @@ func (b *boundsAnalysis) operandFor(e ast.Expr) (ast.Expr, bool) {
 	}
 	a, ok := b.substExpr[b.p.Info.Uses[id]]
 	return a, ok
+}
+
+// sameFactKeys: the two fact sets contain exactly the same facts.
+func sameFactKeys(a, b factSet) bool {
+	if len(a) != len(b) {
+		return false
+	}
+	for k := range a {
+		if _, ok := b[k]; !ok {
+			return false
+		}
+	}
+	return true
 }
